@@ -425,6 +425,7 @@ pub fn c05_sched(ctx: &mut Ctx) {
     for (case, bound, label) in oligo_cases(ctx) {
         oligo_explore(ctx, &case, bound, 5, &label);
     }
+
     if ctx.shard.is_first() {
         ctx.rep.sample("N=2 workers, records [AAAC, CCG, ACGTT], k=1: schedule 0100210 = worker 0 takes record 0, is preempted before writing, worker 1 takes and writes records 1 and 2, worker 0 writes row 0".to_string());
         ctx.rep.notes.push("C05 schedules: controlled-scheduler DFS over the real vectorise_mmap workers; scheduling points: task start, reader mutex, after a record is taken, task exit; N=2 unbounded, N=3 preemption-bounded; reductions: start symmetry, DFS sharded below 2 deviations".to_string());
@@ -1635,4 +1636,224 @@ pub fn replay_oligo_reuse(ctx: &mut Ctx, a: &[String]) {
     let which: u32 = a[1].parse().unwrap();
     let seq: Vec<OligoCfg> = a[2..].iter().map(|s| oligo_cfg_parse(s)).collect();
     oligo_reuse_sequence(ctx, &seq, which);
+}
+
+// ------------------------------------------------------------------------------------------ data-parallel batch paths
+//
+// The batched oligo writer, whole-sequence CGR, k-mer CGR and the coverage compute step process a buffer of records
+// with a parallel iterator. Each item announces itself as a task of a scope (hook `ktio::verif::item`), so with
+// at least as many pool threads as items the order in which the items run - and every lock or atomic operation an
+// item performs through the shim types - is decided by the explorer. Oracle per schedule: the output bytes of a
+// one-thread run (itself checked against the per-record routines by the file-level checks).
+
+#[derive(Clone, Debug)]
+pub struct BatchCase {
+    /// "oligo", "oligo-counts", "cgr", "kcgr", "kcgr-counts", "cov", "cov-counts"
+    pub kind: String,
+    pub threads: usize,
+    pub k: usize,
+    /// batch limit in bases (None: one batch)
+    pub memory: Option<usize>,
+    pub records: Vec<Vec<u8>>,
+}
+
+impl BatchCase {
+    fn argv(&self, choices: &[u8]) -> Vec<String> {
+        vec![
+            "case".into(),
+            "BatchSched".into(),
+            self.kind.clone(),
+            self.threads.to_string(),
+            self.k.to_string(),
+            self.memory.map(|m| m.to_string()).unwrap_or_else(|| "-".into()),
+            self.records.iter().map(|r| hex(r)).collect::<Vec<_>>().join(","),
+            fmt_choices(choices),
+        ]
+    }
+    fn from_argv(a: &[String]) -> (BatchCase, Vec<u8>) {
+        (
+            BatchCase {
+                kind: a[0].clone(),
+                threads: a[1].parse().unwrap(),
+                k: a[2].parse().unwrap(),
+                memory: a[3].parse().ok(),
+                records: if a[4].is_empty() { vec![] } else { a[4].split(',').map(unhex).collect() },
+            },
+            parse_choices(a.get(5).map(|s| s.as_str()).unwrap_or("")),
+        )
+    }
+    fn describe(&self) -> String {
+        format!("{} batch path: {} pool threads, k={}, batch limit {:?} bases, records {:?}", self.kind, self.threads, self.k, self.memory, self.records.iter().map(|r| show(r)).collect::<Vec<_>>())
+    }
+}
+
+/// one execution of the batch path of `case`; returns the panic/outcome, the scheduler's result and the output bytes
+fn batch_exec(case: &BatchCase, scratch: &str, threads: usize, prefix: &[u8], opts: ExecOpts) -> (Result<Result<(), String>, String>, ExecResult, Vec<u8>) {
+    let inp = format!("{}/batch_in.fa", scratch);
+    let outp = format!("{}/batch_out.txt", scratch);
+    let dir = format!("{}/batch_cov", scratch);
+    write_fasta(&inp, &case.records);
+    let kind = case.kind.as_str();
+    if kind.starts_with("cov") {
+        // the counts table is built outside the controlled execution (the counter has its own explorations)
+        let _ = std::fs::remove_dir_all(&dir);
+        std::fs::create_dir_all(&dir).unwrap();
+        let mut c = coverage::CovComputer::new(inp.clone(), dir.clone(), case.k, 2, 4);
+        c.set_threads(1);
+        c.set_max_memory(6.0);
+        if let Err(p) = crate::ctx::guard(|| c.build_table().unwrap()) {
+            return (Err(p), ExecResult::default(), Vec::new());
+        }
+    }
+    let (r, res) = execute(prefix, opts, || -> Result<(), String> {
+        match kind {
+            "oligo" | "oligo-counts" => {
+                let mut oc = OligoComputer::new(inp.clone(), outp.clone(), case.k);
+                oc.set_threads(threads);
+                oc.set_norm(kind == "oligo");
+                if let Some(m) = case.memory {
+                    oc.set_max_memory(m);
+                }
+                oc.verif_vectorise_batch()
+            }
+            "cgr" => {
+                let mut c = composition::cgr::CgrComputer::new(inp.clone(), outp.clone(), 16);
+                c.set_threads(threads);
+                if let Some(m) = case.memory {
+                    c.verif_set_max_memory(m);
+                }
+                c.vectorise()
+            }
+            "kcgr" | "kcgr-counts" => {
+                let mut c = composition::oligocgr::OligoCgrComputer::new(inp.clone(), outp.clone(), case.k, 16);
+                c.set_threads(threads);
+                c.set_norm(kind == "kcgr");
+                if let Some(m) = case.memory {
+                    c.verif_set_max_memory(m);
+                }
+                c.vectorise()
+            }
+            _ => {
+                let mut c = coverage::CovComputer::new(inp.clone(), dir.clone(), case.k, 2, 4);
+                c.set_threads(threads);
+                c.set_norm(kind == "cov");
+                // below 1 the step flushes after every record, otherwise once at the end
+                c.set_max_memory(if case.memory.is_some() { 0.5 } else { 6.0 });
+                c.compute_coverages();
+                Ok(())
+            }
+        }
+    });
+    let bytes = std::fs::read(if kind.starts_with("cov") { format!("{dir}/kmers.vectors") } else { outp }).unwrap_or_default();
+    (r, res, bytes)
+}
+
+pub fn batch_explore(ctx: &mut Ctx, case: &BatchCase, bound: Option<u32>, label: &str) {
+    let what = case.describe();
+    let scratch = ctx.scratch.clone();
+    // reference: the same job on one pool thread, free-running
+    let free = ExecOpts { controlled: false, logging: false, symmetry: false };
+    let (r0, _, reference) = batch_exec(case, &scratch, 1, &[], free);
+    if !matches!(r0, Ok(Ok(()))) {
+        return viol(ctx, "panic", case.records.len(), format!("{what}: the one-thread run failed: {:?}", r0), case.argv(&[]));
+    }
+    let ctl = ExecOpts { controlled: true, logging: true, symmetry: false };
+    determinism_check(&what, |p| batch_exec(case, &scratch, case.threads, p, ctl).1);
+    let always = |_: &Choice| true;
+    let cfg = ExploreCfg { bound, shard: (ctx.shard.idx, ctx.shard.n), split_level: 2, root: vec![], branch: &always, max_executions: 1_000_000 };
+    let mut found: Option<(String, String, Vec<u8>)> = None;
+    let mut orders: BTreeSet<String> = BTreeSet::new();
+    let stats = explore(&cfg, |prefix, counted| {
+        let (r, res, bytes) = batch_exec(case, &scratch, case.threads, prefix, ctl);
+        engine_health(&res, &what, prefix);
+        if counted {
+            // order in which the items finished (non-vacuity: different completion orders were produced)
+            orders.insert(res.events.iter().filter(|e| e.site == "task.exit").map(|e| format!("{}.{}", e.phase, e.arg)).collect::<Vec<_>>().join(" "));
+        }
+        let bad = if res.deadlock {
+            Some(("deadlock".to_string(), "no item enabled but some blocked on a mutex".to_string()))
+        } else if let Some(p) = &res.panicked {
+            Some(("panic".to_string(), format!("an item panicked: {p}")))
+        } else if let Err(p) = &r {
+            Some(("panic".to_string(), format!("panicked: {p}")))
+        } else if let Ok(Err(e)) = &r {
+            Some(("error".to_string(), e.clone()))
+        } else if bytes != reference {
+            let (gl, rl) = (bytes.split(|&b| b == b'\n').count(), reference.split(|&b| b == b'\n').count());
+            Some((if gl != rl { "output-size".to_string() } else { "rows-differ-from-one-thread-run".to_string() }, format!("output {:?} differs from the output of the same job on one thread {:?}", String::from_utf8_lossy(&bytes[..bytes.len().min(400)]), String::from_utf8_lossy(&reference[..reference.len().min(400)]))))
+        } else {
+            None
+        };
+        if counted {
+            ctx.rep.evaluations += 1;
+            ctx.rep.nontrivial += 1;
+        }
+        match bad {
+            Some((k, m)) => {
+                found = Some((k, m, res.choices()));
+                (res, false)
+            }
+            None => (res, true),
+        }
+    });
+    record_stats(ctx, &stats, bound, label);
+    ctx.rep.count("sched.batch.distinct_completion_orders", orders.len() as u64);
+    if let Some((k, m, choices)) = found {
+        let pre = choices.iter().filter(|&&c| c != 0).count();
+        viol(ctx, &k, case.records.len() * 10 + pre, format!("{what}; schedule {} ({} deviations): {m}", fmt_choices(&choices), pre), case.argv(&choices));
+    }
+}
+
+/// the registered batch cases of one family ("oligo", "cgr", "kcgr", "cov")
+pub fn batch_cases(ctx: &Ctx, family: &str) -> Vec<(BatchCase, Option<u32>, String)> {
+    let clean3: Vec<Vec<u8>> = vec![b"ACGTAC".to_vec(), b"GGA".to_vec(), b"TTGCATG".to_vec()];
+    // records without any window next to ordinary ones (all-zero rows), twice the same record, an empty record
+    let mixed3: Vec<Vec<u8>> = vec![b"A".to_vec(), b"ACGTTGCA".to_vec(), b"N".to_vec()];
+    let mixed4: Vec<Vec<u8>> = vec![b"ACGTAC".to_vec(), b"".to_vec(), b"ACGTAC".to_vec(), b"NN".to_vec()];
+    let kinds: Vec<&str> = match family {
+        "oligo" => vec!["oligo", "oligo-counts"],
+        "cgr" => vec!["cgr"],
+        "kcgr" => vec!["kcgr", "kcgr-counts"],
+        _ => vec!["cov", "cov-counts"],
+    };
+    let mut out = Vec::new();
+    for kind in kinds {
+        let sets: Vec<(&str, Vec<Vec<u8>>)> = if kind == "cgr" {
+            vec![("clean2", clean3[..2].to_vec()), ("clean3", clean3.clone()), ("clean4", vec![b"A".to_vec(), b"CC".to_vec(), b"A".to_vec(), b"GTT".to_vec()])]
+        } else {
+            vec![("clean2", clean3[..2].to_vec()), ("mixed3", mixed3.clone()), ("mixed4", mixed4.clone())]
+        };
+        for (tag, recs) in sets {
+            let n = recs.len();
+            // one batch: unbounded for two and three items, preemption-bounded for four
+            out.push((BatchCase { kind: kind.to_string(), threads: n, k: 3, memory: None, records: recs.clone() }, if n <= 3 { None } else { Some(ctx.pick(2, 4)) }, format!("batch.{kind}.{tag}")));
+            if n >= 3 {
+                // several batches (a small limit closes a batch after one or two records): state must not leak from
+                // one batch into the next; more pool threads than items
+                out.push((BatchCase { kind: kind.to_string(), threads: n + 1, k: 3, memory: Some(7), records: recs.clone() }, if n <= 3 { None } else { Some(ctx.pick(2, 4)) }, format!("batch.{kind}.{tag}.mem7")));
+            }
+        }
+    }
+    out
+}
+
+pub fn batch_explore_family(ctx: &mut Ctx, family: &str) {
+    for (case, bound, label) in batch_cases(ctx, family) {
+        batch_explore(ctx, &case, bound, &label);
+    }
+    ctx.lap(&format!("batch_sched.{family}"));
+}
+
+pub fn replay_batch(ctx: &mut Ctx, args: &[String]) {
+    let (case, choices) = BatchCase::from_argv(&args[1..]);
+    let scratch = ctx.scratch.clone();
+    let free = ExecOpts { controlled: false, logging: false, symmetry: false };
+    let (_, _, reference) = batch_exec(&case, &scratch, 1, &[], free);
+    let ctl = ExecOpts { controlled: true, logging: true, symmetry: false };
+    let (r, res, bytes) = batch_exec(&case, &scratch, case.threads, &choices, ctl);
+    engine_health(&res, "replay", &choices);
+    ctx.rep.evaluations += 1;
+    if !matches!(r, Ok(Ok(()))) || res.deadlock || res.panicked.is_some() || bytes != reference {
+        viol(ctx, "rows-differ-from-one-thread-run", 0, format!("{}; schedule {}: outcome {:?}, deadlock {}, output {:?}, one-thread output {:?}", case.describe(), fmt_choices(&choices), r, res.deadlock, String::from_utf8_lossy(&bytes[..bytes.len().min(400)]), String::from_utf8_lossy(&reference[..reference.len().min(400)])), vec![]);
+    }
 }
